@@ -145,11 +145,11 @@ def insitu(ctx):
 
 
 def run(ctx):
-    ctx.cov["bounds"] = {"grid": "z, w in (1/4)Z[i], |z|,|w| <= 2 (197 x 197 points)", "candidate roots": "s = k/16, k = 0..128",
+    ctx.cov["bounds"] = {"grid": "z, w in (1/4)Z[i], |z|,|w| <= 2 (197 x 197 points)", "candidate roots": "s = k/16, k = 0..64 (quick) / 0..128 (thorough)",
                          "dt": "2^-10..2^3", "u": [1.0, 5.79], "gamma": [0.0] + pu.GAMMAS, "epsilon": [-1.0, 0.0, 0.5, 1.0],
                          "mu*dt": pu.MU_PHASES, "tiny |psi|": pu.TINY, "near-tangent |D|/(2c+1)^2": pu.NEAR_SIZES, "residual tolerance": pu.TOL * pu.QUANTUM}
     # 1. the design: lemmas of PsiUpdate at every grid point
-    ctx.model_check("PsiUpdate", pu.model_cfg(pu.LEMMAS), name="PsiUpdate[lemmas]", required_actions=["PickZ", "PickW"])
+    ctx.model_check("PsiUpdate", pu.model_cfg(pu.LEMMAS, smax=(64 if ctx.quick else 128)), name="PsiUpdate[lemmas]", required_actions=["PickZ", "PickW"])
     for inv in ("NoNone", "NoTangent", "NoTwoIrrational"):     # every class occurs on the grid (sharpness of the universe)
         ctx.model_check("PsiUpdate", pu.model_cfg([inv], smax=0), name=f"PsiUpdate[coverage {inv}]", expect_violation=inv, count=False)
     # 2. spec -> code: TLC emits the vectors (inputs, class, exact root where rational)
